@@ -5,6 +5,7 @@ mod abs;
 mod c02;
 mod c03;
 mod c16;
+mod clientsim;
 mod faithful;
 mod gen;
 mod model;
@@ -87,11 +88,13 @@ fn main() {
         "C09" => run_property(&props_engine::c09(), &opts),
         "C10" => run_property(&props_engine::c10(), &opts),
         "C11" => run_property(&props_engine::c11(), &opts),
+        "C12" => run_property(&clientsim::C12, &opts),
         "C14" => run_property(&faithful::C14, &opts),
         "C15" => run_property(&props_engine::c15(), &opts),
         "C16" => run_property(&c16::C16, &opts),
         "C17" => run_property(&props_engine::c17(), &opts),
         "C18" => run_property(&props_engine::c18(), &opts),
+        "C19" => run_property(&clientsim::C19, &opts),
         _ => {
             eprintln!("unknown property {}", id);
             2
